@@ -438,7 +438,7 @@ def listbox_task(task, ctx: Ctx):
 # ScrollBar over a ListBox: histories with keys, wheel, resizes and content changes made in place
 # ----------------------------------------------------------------------
 LB_SIZES = [(6, 3), (6, 5), (4, 2), (7, 8)]
-LB_KINDS = ["txt3", "mixed", "icons6", "icons9", "wrap5"]
+LB_KINDS = ["txt3", "mixed", "icons6", "icons9", "wrap5", "icons9@10", "txt3@10"]  # @10: a walker whose positions are the integers 10, 20, 30, ...
 LB_BARS = [("right", 1), ("left", 2)]
 LB_KEYS = ["up", "down", "page up", "page down", "home", "end", "enter"]
 
@@ -459,6 +459,59 @@ def lb_items(kind):
     raise AssertionError(kind)
 
 
+class SparseWalker(urwid.ListWalker):
+    """integer positions that are keys, not counts: item i lives at position 10 * (i + 1)"""
+
+    def __init__(self, items):
+        self.items = list(items)
+        self.focus = 10
+
+    def __len__(self):
+        return len(self.items)
+
+    def __iter__(self):
+        return iter(self.items)
+
+    def __getitem__(self, pos):
+        if isinstance(pos, int) and pos % 10 == 0 and 1 <= pos // 10 <= len(self.items):
+            return self.items[pos // 10 - 1]
+        raise IndexError(pos)
+
+    def next_position(self, pos):
+        if pos // 10 >= len(self.items):
+            raise IndexError(pos)
+        return pos + 10
+
+    def prev_position(self, pos):
+        if pos <= 10:
+            raise IndexError(pos)
+        return pos - 10
+
+    def set_focus(self, pos):
+        self[pos]
+        self.focus = pos
+        self._modified()
+
+    def positions(self, reverse=False):
+        ps = [10 * (i + 1) for i in range(len(self.items))]
+        return reversed(ps) if reverse else iter(ps)
+
+    def append(self, w):
+        self.items.append(w)
+        self._modified()
+
+    def pop(self):
+        w = self.items.pop()
+        self.focus = max(10, min(self.focus, 10 * len(self.items)))
+        self._modified()
+        return w
+
+    def __delitem__(self, sl):
+        del self.items[sl]
+        self.focus = max(10, min(self.focus, 10 * len(self.items)))
+        self._modified()
+
+
 def item_text(w):
     return w.edit_text if isinstance(w, urwid.Edit) else w.text
 
@@ -475,9 +528,9 @@ class LbSt:
         kind, bar, s0 = cfg
         self.cfg = cfg
         self.size_i = s0
-        self.items = lb_items(kind)
+        self.items = lb_items(kind.split("@")[0])
         self.base = [item_text(w) for w in self.items]
-        self.walker = urwid.SimpleFocusListWalker(list(self.items))
+        self.walker = SparseWalker(self.items) if "@" in kind else urwid.SimpleFocusListWalker(list(self.items))
         self.lb = urwid.ListBox(self.walker)
         self.bar = bar
         self.top = urwid.ScrollBar(self.lb, thumb_char=THUMB, trough_char=TROUGH, side=bar[0], width=bar[1])
@@ -613,7 +666,7 @@ class LbSpec:
             elif op[0] == "resize":
                 st.size_i = op[1]
             elif op[0] in ("grow", "shrink"):
-                w = st.walker[op[1]]
+                w = list(st.walker)[op[1]]
                 t = item_text(w)
                 tag = t[:1] or "z"
                 if op[0] == "grow":
